@@ -2675,7 +2675,20 @@ func (m *Msg) hasAlt() bool {
 // References:
 //   - https://datatracker.ietf.org/doc/html/rfc2046#section-5.1.3
 func (m *Msg) hasMixed() bool {
-	return m.pgptype == 0 && ((len(m.parts) > 0 && len(m.attachments) > 0) || len(m.attachments) > 1)
+	return m.pgptype == 0 && ((m.bodyPartCount()+len(m.embeds) > 0 && len(m.attachments) > 0) ||
+		len(m.attachments) > 1)
+}
+
+// bodyPartCount returns the number of message parts that are rendered as body parts, which are
+// all parts that have not been deleted and are not the S/MIME signature part.
+func (m *Msg) bodyPartCount() int {
+	count := 0
+	for _, part := range m.parts {
+		if !part.isDeleted && !part.smime {
+			count++
+		}
+	}
+	return count
 }
 
 // hasSMIME determines if the Msg should be signed with S/MIME.
@@ -2710,7 +2723,7 @@ func (m *Msg) isSMIMEInProgress() bool {
 // References:
 //   - https://datatracker.ietf.org/doc/html/rfc2387
 func (m *Msg) hasRelated() bool {
-	return m.pgptype == 0 && ((len(m.parts) > 0 && len(m.embeds) > 0) || len(m.embeds) > 1)
+	return m.pgptype == 0 && ((m.bodyPartCount() > 0 && len(m.embeds) > 0) || len(m.embeds) > 1)
 }
 
 // hasPGPType returns true if the Msg should be treated as a PGP-encoded message.
